@@ -13,9 +13,9 @@ cd $WT
 # normalise the worktree: tracked files = HEAD + patch
 git checkout -q -- . ; git apply $OUT/patch.diff || { echo "PATCH DOES NOT APPLY"; exit 1; }
 echo "== existing tests with change (demo skipped)"; (cd $MOD && go test -count=1 -skip 'Seed|seed|Demo|ZZ' $PKG 2>&1 | tail -3)
-echo "== demo with change (must fail)"; (cd $MOD && go test $SEED_TEST_FLAGS -count=1 -run "Seed|seed|Demo|ZZ" $PKG 2>&1 | tail -5)
+echo "== demo with change (must fail)"; (cd $MOD && go test ${SEED_TEST_FLAGS:-} -count=1 -run "Seed|seed|Demo|ZZ" $PKG 2>&1 | tail -5)
 git apply -R $OUT/patch.diff
-echo "== demo without change (must pass)"; (cd $MOD && go test $SEED_TEST_FLAGS -count=1 -run "Seed|seed|Demo|ZZ" $PKG 2>&1 | tail -3)
+echo "== demo without change (must pass)"; (cd $MOD && go test ${SEED_TEST_FLAGS:-} -count=1 -run "Seed|seed|Demo|ZZ" $PKG 2>&1 | tail -3)
 git apply $OUT/patch.diff
 echo "== kafcheck on /repo with patch applied"
 git -C /repo apply $OUT/patch.diff && (cd /verif && bin/kafcheck -q -p $PROP -evidence-dir /tmp/ev 2>&1 | grep -v "^KNOWN" | cut -c1-400); git -C /repo checkout -- . 
